@@ -5,9 +5,11 @@
 package c01
 
 import (
+	"crypto/sha1"
 	"encoding/hex"
 	"encoding/json"
 	"fmt"
+	"os"
 	"regexp"
 	"strings"
 
@@ -64,7 +66,7 @@ func Run(c *vh.Ctx) {
 		}
 		cases = []Case{rc}
 	} else {
-		c.Res.Rule = "inputs: (a) every token-boundary prefix and every single-token deletion/duplication of corpus files (quick: a seeded sample of files; thorough: all files of tests/+examples/), (b) generated side-effect-free programs, their token-boundary prefixes and mutants — accepted ones are also run, (c) seeded byte/structure mutants of corpus files, (d) a committed list of past crashers. Each is lexed and parsed in a child process under a c·(n+1)² time limit. non-trivial = at least 3 tokens; distinct = distinct (mode, bytes)"
+		c.Res.Rule = "inputs: (a) every token-boundary prefix and every single-token deletion/duplication of corpus files (quick: a seeded sample of files; thorough: all files of tests/+examples/), (b) generated side-effect-free programs, their token-boundary prefixes and mutants — accepted ones are also run, (c) seeded byte/structure mutants of corpus files, (d) a committed list of past crashers, (e) nesting: every bracket pair of the token table behind every head the table offers, and every bracketed construct of the corpus (distinct token-type signatures of head + brackets + tail), nested in itself (and, sampled, alternating with another) to depth 16/32 (thorough: to 128) with the nested occurrence in each element slot. Each is lexed and parsed in a child process under a c·(n+1)² time limit and a deterministic linear WORK budget (heap objects allocated by ParseString; cursor advances ≤ 2·tokens·(depth+1)+64 when the tree carries the verif parser hook). non-trivial = at least 3 tokens; distinct = distinct (mode, bytes)"
 		corpus := lexh.Corpus(c.Repo)
 		// phase 1: token boundaries of the chosen files
 		nfiles := c.N(12, len(corpus))
@@ -151,6 +153,16 @@ func Run(c *vh.Ctx) {
 		for _, src := range lexh.NestedPrograms(depths) {
 			add("nest", "s", src, false)
 		}
+		// every bracketed construct the token table and the corpus offer, nested in itself and in
+		// others behind every head and in every slot (nest.go); what exceeds the work budget or the
+		// watchdog comes back as a case and is judged below
+		if os.Getenv("C01_NONEST") == "" { // dev aid: time the run without the stream
+			ns := nestStream(c, pool, corpus)
+			if os.Getenv("C01_ONLYNEST") != "" { // dev aid: the stream alone
+				cases = nil
+			}
+			cases = append(cases, ns...)
+		}
 		// richer generated programs (classes, match, class-init literals, closures, named / spread
 		// arguments, destructuring, heredoc …): prefixes cut at token boundaries and mutants, all run
 		for i := 0; i < c.N(250, 5000); i++ {
@@ -188,121 +200,149 @@ func Run(c *vh.Ctx) {
 			add("past-crasher", k[0], k[1], k[2] == "run")
 		}
 	}
-	// phase A: lex + parse (a hang or crash here is a violation)
-	reqs := make([]lexh.Req, len(cases))
-	for i, cs := range cases {
-		reqs[i] = lexh.Req{ID: i, Mode: cs.Mode, Hex: cs.Hex, Lex: true, Parse: true}
-	}
-	verd := pool.Run(reqs)
-	// phase B: run the accepted side-effect-free programs (a program that itself runs long is not judged)
-	var runIdx []int
-	var runReqs []lexh.Req
-	for i, cs := range cases {
-		if cs.Run && verd[i].Resp != nil && verd[i].Resp.Parse == "ok" {
-			runIdx = append(runIdx, i)
-			runReqs = append(runReqs, lexh.Req{ID: i, Mode: cs.Mode, Hex: cs.Hex, Parse: true, Run: true})
+	// the cases are judged in batches: a batch's answers (token lists!) are dropped before the next
+	// one is asked for — the thorough tier has several hundred thousand cases
+	judge := func(batch []Case) {
+		// phase A: lex + parse (a hang or crash here is a violation)
+		reqs := make([]lexh.Req, len(batch))
+		for i, cs := range batch {
+			reqs[i] = lexh.Req{ID: i, Mode: cs.Mode, Hex: cs.Hex, Lex: true, Parse: true}
 		}
-	}
-	runVerd := pool.Run(runReqs)
-	for k, i := range runIdx {
-		rv := runVerd[k]
-		switch {
-		case rv.Hung:
-			c.Hit("run:long(not judged)")
-		case rv.Resp == nil:
-			verd[i].Resp.Run = "died"
-			verd[i].Resp.RunMsg = rv.Died
-		default:
-			verd[i].Resp.Run = rv.Resp.Run
-			verd[i].Resp.RunMsg = rv.Resp.RunMsg
-		}
-	}
-	var mans []string
-	if m != nil {
-		lines := make([]string, len(cases))
-		for i, cs := range cases {
-			lines[i] = "lex " + cs.Mode + " " + cs.Hex
-		}
-		var err error
-		// the driver is stateless per line: answer with several driver processes
-		if mans, err = vh.AskParallel(c.ModelPath, lines, 8); err != nil {
-			c.Note("model failed: %v", err)
-			mans = nil
-		}
-		c.Res.ModelLines = len(lines)
-	}
-	for i, cs := range cases {
-		v := verd[i]
-		kind := strings.SplitN(cs.Name, ":", 3)
-		k := kind[0]
-		if strings.HasPrefix(k, "tests/") || strings.HasPrefix(k, "examples/") {
-			k = "corpus"
-		}
-		if len(kind) > 1 && (kind[1] == "prefix" || kind[1] == "del" || kind[1] == "dup" || kind[1] == "mutant") {
-			k += ":" + kind[1]
-		}
-		c.Hit("input:" + k)
-		n := len(cs.Hex) / 2
-		if v.Hung {
-			c.Eval(cs.Mode+cs.Hex, true)
-			c.Violation("hang:"+v.HangSite, fmt.Sprintf("lexing+parsing %d bytes did not finish within %v, looping in %s (input %s)", n, lexh.Timeout(n), v.HangSite, cs.Name), cs)
-			c.Hit("outcome:hang")
-			continue
-		}
-		if v.Died != "" || v.Resp == nil {
-			c.Eval(cs.Mode+cs.Hex, true)
-			c.Violation("died:"+firstWords(v.Died), "process died while lexing/parsing: "+v.Died, cs)
-			c.Hit("outcome:died")
-			continue
-		}
-		r := v.Resp
-		c.Eval(cs.Mode+cs.Hex, len(r.Toks) >= 3)
-		c.SampleSome(map[string]any{"name": cs.Name, "mode": cs.Mode, "bytes": n, "tokens": len(r.Toks), "parse": r.Parse, "run": r.Run}, 1009)
-		if r.LexPanic != "" {
-			c.Violation("lex:panic:"+siteSig(r.LexPanic), "lexer panic: "+r.LexPanic, cs)
-			c.Hit("outcome:lex-panic")
-			continue
-		}
-		c.Hit("parse:" + r.Parse)
-		if r.Parse == "panic" {
-			c.Violation("parse:panic:"+siteSig(r.ParseMsg), "parser panic: "+r.ParseMsg, cs)
-		}
-		if r.Run != "" {
-			c.Hit("run:" + r.Run)
-			if r.Run == "died" {
-				c.Violation("run:died:"+firstWords(r.RunMsg), "the process died while running an accepted program: "+r.RunMsg, cs)
-			}
-			if r.Run == "go-panic" {
-				// the clause of C01: an accepted program never crashes *because of a missing operand or
-				// clause* (a nil child node). Other Go panics of ill-typed operands belong to C03.
-				if strings.Contains(r.RunMsg, "nil pointer dereference") || strings.Contains(r.RunMsg, "interface is nil") {
-					site := siteSig(r.RunMsg)
-					if strings.HasPrefix(site, "node/") {
-						site = "node"
-					}
-					c.Violation("run:nil-operand:"+site, "accepted program crashed the interpreter (missing operand or clause): "+r.RunMsg, cs)
-				} else {
-					c.Hit("run:other-go-panic(C03)")
-				}
+		verd := pool.Run(reqs)
+		// phase B: run the accepted side-effect-free programs (a program that itself runs long is not judged)
+		var runIdx []int
+		var runReqs []lexh.Req
+		for i, cs := range batch {
+			if cs.Run && verd[i].Resp != nil && verd[i].Resp.Parse == "ok" {
+				runIdx = append(runIdx, i)
+				runReqs = append(runReqs, lexh.Req{ID: i, Mode: cs.Mode, Hex: cs.Hex, Parse: true, Run: true})
 			}
 		}
-		if mans != nil && i < len(mans) {
-			mk, _, mt := lexh.ParseModel(mans[i])
-			switch mk {
-			case "tokens":
-				if d := lexh.Diff(r.Toks, mt); d != "" {
-					c.Mismatch(cs, d, "", "lexer vs Model.Lex")
-				}
-			case "html":
+		runVerd := pool.Run(runReqs)
+		for k, i := range runIdx {
+			rv := runVerd[k]
+			switch {
+			case rv.Hung:
+				c.Hit("run:long(not judged)")
+			case rv.Resp == nil:
+				verd[i].Resp.Run = "died"
+				verd[i].Resp.RunMsg = rv.Died
 			default:
-				c.Mismatch(cs, fmt.Sprintf("%d tokens", len(r.Toks)), mans[i], "model outcome "+mk)
+				verd[i].Resp.Run = rv.Resp.Run
+				verd[i].Resp.RunMsg = rv.Resp.RunMsg
 			}
 		}
+		var mans []string
+		if m != nil {
+			lines := make([]string, len(batch))
+			for i, cs := range batch {
+				lines[i] = "lex " + cs.Mode + " " + cs.Hex
+			}
+			var err error
+			// the driver is stateless per line: answer with several driver processes
+			if mans, err = vh.AskParallel(c.ModelPath, lines, 8); err != nil {
+				c.Note("model failed: %v", err)
+				mans = nil
+			}
+			c.Res.ModelLines += len(lines)
+		}
+		for i, cs := range batch {
+			v := verd[i]
+			kind := strings.SplitN(cs.Name, ":", 3)
+			k := kind[0]
+			if strings.HasPrefix(k, "tests/") || strings.HasPrefix(k, "examples/") {
+				k = "corpus"
+			}
+			if len(kind) > 1 && (kind[1] == "prefix" || kind[1] == "del" || kind[1] == "dup" || kind[1] == "mutant") {
+				k += ":" + kind[1]
+			}
+			c.Hit("input:" + k)
+			n := len(cs.Hex) / 2
+			if v.Hung {
+				c.Eval(caseKey(cs), true)
+				c.Violation("hang:"+v.HangSite, fmt.Sprintf("lexing+parsing %d bytes did not finish within %v, looping in %s (input %s)", n, lexh.Timeout(n), v.HangSite, cs.Name), cs)
+				c.Hit("outcome:hang")
+				continue
+			}
+			if v.Died != "" || v.Resp == nil {
+				c.Eval(caseKey(cs), true)
+				c.Violation("died:"+firstWords(v.Died), "process died while lexing/parsing: "+v.Died, cs)
+				c.Hit("outcome:died")
+				continue
+			}
+			r := v.Resp
+			c.Eval(caseKey(cs), len(r.Toks) >= 3)
+			c.SampleSome(map[string]any{"name": cs.Name, "mode": cs.Mode, "bytes": n, "tokens": len(r.Toks), "parse": r.Parse, "run": r.Run}, 1009)
+			if r.LexPanic != "" {
+				c.Violation("lex:panic:"+siteSig(r.LexPanic), "lexer panic: "+r.LexPanic, cs)
+				c.Hit("outcome:lex-panic")
+				continue
+			}
+			c.Hit("parse:" + r.Parse)
+			dumpWork(cs.Name, n, r.ParseAllocs, interpPieces(r.Toks), r.ParseAdv, r.ParseTokens, r.ParseUS, r.Parse, cs.Hex)
+			if r.Parse == "panic" {
+				c.Violation("parse:panic:"+siteSig(r.ParseMsg), "parser panic: "+r.ParseMsg, cs)
+			}
+			if why := overWork(r, n, interpPieces(r.Toks)); why != "" {
+				// the deterministic form of "time bounded by a modest function of the input length"
+				sig := "work:" + k
+				if len(kind) >= 3 && kind[0] == "nestgen" {
+					sig = "work:nest:" + kind[2]
+				}
+				c.Violation(sig, fmt.Sprintf("parsing %d bytes took %d µs: %s — the parser does work that is not bounded by a modest function of the input length (input %s)", n, r.ParseUS, why, cs.Name), cs)
+				c.Hit("outcome:over-work-budget")
+			}
+			if r.Run != "" {
+				c.Hit("run:" + r.Run)
+				if r.Run == "died" {
+					c.Violation("run:died:"+firstWords(r.RunMsg), "the process died while running an accepted program: "+r.RunMsg, cs)
+				}
+				if r.Run == "go-panic" {
+					// the clause of C01: an accepted program never crashes *because of a missing operand or
+					// clause* (a nil child node). Other Go panics of ill-typed operands belong to C03.
+					if strings.Contains(r.RunMsg, "nil pointer dereference") || strings.Contains(r.RunMsg, "interface is nil") {
+						site := siteSig(r.RunMsg)
+						if strings.HasPrefix(site, "node/") {
+							site = "node"
+						}
+						c.Violation("run:nil-operand:"+site, "accepted program crashed the interpreter (missing operand or clause): "+r.RunMsg, cs)
+					} else {
+						c.Hit("run:other-go-panic(C03)")
+					}
+				}
+			}
+			if mans != nil && i < len(mans) {
+				mk, _, mt := lexh.ParseModel(mans[i])
+				switch mk {
+				case "tokens":
+					if d := lexh.Diff(r.Toks, mt); d != "" {
+						c.Mismatch(cs, d, "", "lexer vs Model.Lex")
+					}
+				case "html":
+				default:
+					c.Mismatch(cs, fmt.Sprintf("%d tokens", len(r.Toks)), mans[i], "model outcome "+mk)
+				}
+			}
+		}
+	}
+	const batchSize = 16384
+	for lo := 0; lo < len(cases); lo += batchSize {
+		hi := lo + batchSize
+		if hi > len(cases) {
+			hi = len(cases)
+		}
+		judge(cases[lo:hi])
 	}
 	if len(c.ReplayRaw) == 0 && c.Thorough() {
 		c.Res.Exhaustive = true
 		c.Res.ExhaustiveWhat = "every token-boundary prefix, single-token deletion and duplication of every corpus file"
 	}
+}
+
+// caseKey identifies a case for the distinctness count (a digest: the sources themselves are large)
+func caseKey(cs Case) string {
+	h := sha1.Sum([]byte(cs.Hex))
+	return cs.Mode + string(h[:])
 }
 
 func firstWords(s string) string {
@@ -350,4 +390,15 @@ var pastCrashers = [][3]string{
 	{"s", "$o = {: 1}; echo 1;", "run"},
 	{"s", "$z = 0; echo 5 % 0;", "run"},
 	{"s", "function neverCalled() { return 7 % 0; } echo 1;", "run"},
+	// round 5 (nesting stream)
+	{"s", "namespace { 1, 1 }\necho 1;", ""},
+	{"s", "namespace A { $a = 1: 1 }", ""},
+	{"s", "echo func_num_args;", "run"},
+	{"s", "func_num_args < 1;", "run"},
+	{"s", strings.Repeat("[ $a, ", 18) + "1" + strings.Repeat(" ] = $data", 18) + ";\necho 'parsed';", ""},
+	{"s", "$a = 1; $b = 2; $x = " + strings.Repeat("[$a, $b += ", 18) + "1" + strings.Repeat("]", 18) + "; echo 'x';", "run"},
+	{"s", "class K { protected $r = [1, $q]; } $o = new K(); echo 'x';", "run"},
+	{"s", "class K { public $p = {\"k\": $q}; public $r = [$q => 1]; } $o = new K(); echo 'x';", "run"},
+	{"t", "<?php\n#[\\Container\\Bind(abstract: $x::class)]\nclass C {}\n", ""},
+	{"s", "echo $u::class; echo 1;", "run"},
 }
